@@ -27,6 +27,7 @@ struct SinkState {
 struct Faults {
     write_err: Vec<u64>,
     write_eintr: Vec<u64>,
+    write_wouldblock: Vec<u64>,
     short_write: Vec<u64>,
     flush_err: Vec<u64>,
     /// while F9 is open, must-hold runs do not fail a flush once the guard's drop was invoked
@@ -76,6 +77,9 @@ impl Write for SimWriter {
         let res = if self.faults.write_err.contains(&n) {
             fault("writer_error_write");
             Err(io::ErrorKind::Other)
+        } else if self.faults.write_wouldblock.contains(&n) {
+            fault("writer_would_block");
+            Err(io::ErrorKind::WouldBlock)
         } else if self.faults.write_eintr.contains(&n) {
             fault("writer_eintr");
             Err(io::ErrorKind::Interrupted)
@@ -153,7 +157,7 @@ impl Engine for AppenderEngine {
         }
     }
     fn rule(&self, _p: &str) -> String {
-        "plan = (capacity, lossy?, producers x unique lines, writer pacing, fault subset, guard-drop point) x schedule; non-trivial = at least one line was written AND (the queue was observed full OR a fault fired OR the guard was dropped while lines were queued); distinct = distinct (plan digest, schedule digest)".into()
+        "plan = (capacity, lossy?, producers x unique lines, writer pacing, fault subset {write error, EINTR, WouldBlock, short write, short write then WouldBlock, flush error}, guard-drop point, guard dropped normally or by a caught panic unwinding) x schedule; a sixth of the runs have the slow-handshake shape (queue cannot fill, sink stalled 150-800 ms, guard dropped into the stall); non-trivial = at least one line was written AND (the queue was observed full OR a fault fired OR the guard was dropped while lines were queued); distinct = distinct (plan digest, schedule digest)".into()
     }
     fn components(&self) -> Value {
         json!({"real": ["tracing_appender::non_blocking::{NonBlocking,WorkerGuard,ErrorCounter}", "tracing_appender::worker::Worker (its own OS thread, joined into the simulation at its first channel call)"],
@@ -188,7 +192,7 @@ impl Engine for AppenderEngine {
         }
         for i in 0..total {
             if i == drop_at {
-                steps.push(json!({"t": 0, "op": "drop_guard"}));
+                steps.push(json!({"t": 0, "op": "drop_guard", "unwind": rng.chance(1, 5)}));
                 dropped = true;
             }
             match if slow { 11 } else { rng.below(12) } {
@@ -215,7 +219,7 @@ impl Engine for AppenderEngine {
         if !rng.chance(1, 3) {
             let nf = rng.range(1, 3);
             for _ in 0..nf {
-                let kind = *rng.pick(&["write_err", "write_eintr", "short_write", "flush_err"]);
+                let kind = *rng.pick(&["write_err", "write_eintr", "short_write", "flush_err", "write_wouldblock", "short_then_wouldblock"]);
                 let nth = if rng.chance(1, 2) { rng.range(1, 3) } else { rng.range(1, total + 2) };
                 faults.push(json!({"kind": kind, "nth": nth}));
             }
@@ -273,12 +277,19 @@ impl Engine for AppenderEngine {
         let cfg = plan["cfg"].clone();
         let steps: Vec<Value> = plan["steps"].as_array().cloned().unwrap_or_default();
         let mode = plan["mode"].as_str().unwrap_or("must").to_string();
-        let mut f = Faults { write_err: vec![], write_eintr: vec![], short_write: vec![], flush_err: vec![], f9_guard: cfg["f9_guard"].as_bool().unwrap_or(false), flush_err_after_drop: false };
+        std::panic::set_hook(Box::new(|_| {}));
+        let mut f = Faults { write_err: vec![], write_eintr: vec![], write_wouldblock: vec![], short_write: vec![], flush_err: vec![], f9_guard: cfg["f9_guard"].as_bool().unwrap_or(false), flush_err_after_drop: false };
         for x in plan["faults"].as_array().cloned().unwrap_or_default() {
             let n = x["nth"].as_u64().unwrap_or(0);
             match x["kind"].as_str().unwrap_or("") {
                 "write_err" => f.write_err.push(n),
                 "write_eintr" => f.write_eintr.push(n),
+                "write_wouldblock" => f.write_wouldblock.push(n),
+                "short_then_wouldblock" => {
+                    // a short write whose continuation fails: the line is torn and abandoned, never sent again
+                    f.short_write.push(n);
+                    f.write_wouldblock.push(n + 1);
+                }
                 "short_write" => f.short_write.push(n),
                 "flush_err" => f.flush_err.push(n),
                 "flush_err_after_drop" => f.flush_err_after_drop = true,
@@ -347,12 +358,24 @@ impl Engine for AppenderEngine {
             }
             drop(nb);
             let mut guard = Some(guard);
-            let do_drop = |guard: &mut Option<tracing_appender::non_blocking::WorkerGuard>| {
+            let do_drop = |guard: &mut Option<tracing_appender::non_blocking::WorkerGuard>, unwind: bool| {
                 if let Some(g) = guard.take() {
                     let t0 = detsim::now_ns();
                     di2.store(detsim::stamp(), Ordering::SeqCst);
                     ev("guard drop invoked");
-                    drop(g);
+                    if unwind {
+                        // fault: the guard is dropped by a panic unwinding through its owner's frame (caught here); its
+                        // drop must wait for the worker exactly as an ordinary drop does
+                        fault("guard_dropped_by_unwinding");
+                        detsim::set_simulate_unwinding(true);
+                        let _ = std::panic::catch_unwind(std::panic::AssertUnwindSafe(move || {
+                            let _owned = g;
+                            panic!("injected panic while the worker guard is alive");
+                        }));
+                        detsim::set_simulate_unwinding(false);
+                    } else {
+                        drop(g);
+                    }
                     dr2.store(detsim::stamp(), Ordering::SeqCst);
                     let dt = detsim::now_ns() - t0;
                     ev(format!("guard drop returned after {dt}ns"));
@@ -362,7 +385,7 @@ impl Engine for AppenderEngine {
             for s in steps.iter().filter(|s| s["t"].as_u64() == Some(0)) {
                 detsim::op_boundary("op");
                 match s["op"].as_str().unwrap_or("") {
-                    "drop_guard" => do_drop(&mut guard),
+                    "drop_guard" => do_drop(&mut guard, s["unwind"].as_bool().unwrap_or(false)),
                     "gate" => {
                         let until = detsim::now_ns() + s["ns"].as_u64().unwrap_or(0);
                         gate.closed_until.store(until, Ordering::SeqCst);
@@ -375,7 +398,7 @@ impl Engine for AppenderEngine {
             for t in tids {
                 detsim::join(t);
             }
-            do_drop(&mut guard);
+            do_drop(&mut guard, false);
             shared2.lock().unwrap().dropped_lines = counter.dropped_lines() as u64;
         };
         let mode2 = mode.clone();
